@@ -75,6 +75,7 @@ def run(ctx):
             perflow.append(b)
     ctx.floor("L1", "service loops (TCP/TLS/QUIC accept, server UDP, client TCP accept, client UDP)", 6, len(service))
     l6_sibling_listeners(ctx, bodies, {b_.root for (b_, _, _) in service})
+    l4_no_panic_in_listener_task(ctx, service)
     ctx.floor("L1", "per-flow loops (association task, binding reply task, ...)", 1, len(perflow))
     for (b, (h, body), src) in service:
         src_results = set()
@@ -480,3 +481,60 @@ def l6_sibling_listeners(ctx, bodies, service_roots):
                f"the listeners {names} are driven with {'try_join!' if tryj else 'select!'}: when one of them returns (the datagram loop propagates per-flow errors with `?`) the "
                "other is dropped with its listening socket — one failing flow on one transport ends the service on the other", ordinal=False)
     ctx.ob("L6", "workspace", "sibling-listener-joins-inventoried", "-", True, f"{n} function(s) drive two or more service loops in one task", nontrivial=False, ordinal=False)
+
+
+def l4_no_panic_in_listener_task(ctx, service):
+    """L4: what a service loop executes in its OWN task (not in a spawned per-flow task) on data that arrived from the network must not be able
+    to panic: the panic unwinds the listener task and the listening socket goes with it. C07's panic-site obligations (P2) are re-evaluated for
+    the functions that the loop bodies call synchronously."""
+    from ..engine import Ctx
+    from . import c07
+    prog = ctx.prog
+    inline_fns = set()
+    for (b, (h, body), src) in service:
+        work = []
+        for blk in body:
+            t = b.call_term(blk) if hasattr(b, "call_term") else None
+            t = t or b.term(blk)
+            if t and t.get("k") == "call":
+                work.append(Callee(t["f"]).target)
+            for o in {b.origin[blk]} if getattr(b, "origin", None) else set():
+                inline_fns.add(prog.body(o).defp if prog.body(o) is not None else o)
+        seen = set()
+        depth = {w: 0 for w in work}
+        while work:
+            tg = work.pop()
+            if tg in seen:
+                continue
+            seen.add(tg)
+            tb = prog.body(tg)
+            if tb is None or not tg.startswith("octo_squirrel"):
+                continue
+            if tb.j.get("asyncness") or tb.kind in ("Closure",) and "{closure" in tb.defp and False:
+                pass
+            inline_fns.add(tb.defp)
+            if depth.get(tg, 0) >= 6:
+                continue
+            for (_, c2, t2) in tb.calls():
+                if c2.target.endswith("task::spawn::spawn"):
+                    continue
+                if c2.target not in seen:
+                    depth[c2.target] = depth.get(tg, 0) + 1
+                    work.append(c2.target)
+    sub = Ctx(prog, "C07", ctx.tier)
+    c07.run(sub)
+    n = 0
+    disp = {prog.display(f): f for f in inline_fns}
+    for o in sub.obs:
+        if o.rule != "P2":
+            continue
+        parts = o.key.split("|")
+        if parts[1] not in disp:
+            continue
+        n += 1
+        if o.ok or o.verdict == "reviewed-safe":
+            continue
+        ctx.ob("L4", parts[1], "no-panic-in-listener-task:" + parts[2], o.where, False,
+               "executed by a listener loop in its own task on received data: " + o.detail[:300])
+    ctx.ob("L4", "workspace", "listener-task-panic-sites-inventoried", "-", True, f"{n} panic-site obligations (C07 P2) lie in functions that the service loops call in their own task; {len(inline_fns)} such functions", nontrivial=False, ordinal=False)
+    ctx.floor("L4", "panic-site obligations in listener-task code", 5, n)
